@@ -242,22 +242,22 @@ type DLRRSub struct {
 }
 
 type XRSS_ struct {
-	L, D, J bool
-	ToH     uint8 // 2 bit
-	SSRC    uint32
-	BeginSeq, EndSeq                         uint16
-	Lost, Dup                                uint32
+	L, D, J                                     bool
+	ToH                                         uint8 // 2 bit
+	SSRC                                        uint32
+	BeginSeq, EndSeq                            uint16
+	Lost, Dup                                   uint32
 	MinJitter, MaxJitter, MeanJitter, DevJitter uint32
-	MinTTL, MaxTTL, MeanTTL, DevTTL          uint8
+	MinTTL, MaxTTL, MeanTTL, DevTTL             uint8
 }
 
 type XRVoIP_ struct {
-	SSRC                                          uint32
+	SSRC                                            uint32
 	LossRate, DiscardRate, BurstDensity, GapDensity uint8
-	BurstDuration, GapDuration, RTT, EndSysDelay  uint16
-	SignalLevel, NoiseLevel, RERL, Gmin           uint8
-	RFactor, ExtRFactor, MOSLQ, MOSCQ, RXConfig   uint8
-	JBNominal, JBMax, JBAbsMax                    uint16
+	BurstDuration, GapDuration, RTT, EndSysDelay    uint16
+	SignalLevel, NoiseLevel, RERL, Gmin             uint8
+	RFactor, ExtRFactor, MOSLQ, MOSCQ, RXConfig     uint8
+	JBNominal, JBMax, JBAbsMax                      uint16
 }
 
 // XRBlock is a tagged union selected by BT (1..7 typed, anything else opaque).
